@@ -721,10 +721,24 @@ pub fn parse_iterator(iterator: &Pair<Rule>) -> Result<PreExp, CompilationError>
             let first: Option<Rule> = inner.next().map(|i| i.as_rule());
             match first {
                 Some(Rule::range_iterator) => {
-                    let inner = iterator.clone().into_inner();
-                    let from = inner.find_first_tagged("from").map(parse_parameter);
-                    let to = inner.find_first_tagged("to").map(parse_parameter);
-                    let range_type = inner.find_first_tagged("range_type");
+                    //the bounds are looked up among the direct children of the range only: a tag
+                    //search over the whole subtree would first meet the bounds of a range nested
+                    //inside the lower bound, as in sum(i in sum(j in 0..2) { j }..5) { i }
+                    let children = iterator
+                        .clone()
+                        .into_inner()
+                        .next()
+                        .map(|range| range.into_inner().collect::<Vec<_>>())
+                        .unwrap_or_default();
+                    let tagged = |tag: &str| {
+                        children
+                            .iter()
+                            .find(|p| p.as_node_tag() == Some(tag))
+                            .cloned()
+                    };
+                    let from = tagged("from").map(parse_parameter);
+                    let to = tagged("to").map(parse_parameter);
+                    let range_type = tagged("range_type");
                     match (from, to, range_type) {
                         (Some(from), Some(to), Some(range_type)) => {
                             let to_inclusive = match range_type.as_str() {
